@@ -47,8 +47,8 @@ def gen_dir(rng, ndim, psmin_of, quick):
 
 def gen_case(rng, quick, psmin_of, family=None):
     ndim = rng.choice([1, 2, 2, 2, 3])
-    nmax = 80 if quick else 300
-    n = rng.choice([3, 5, 8, 12, 20, 40, nmax // 2, nmax])
+    if quick: n = rng.choice([3, 5, 8, 12, 20, 40, 40, 80])
+    else: n = rng.choices([3, 5, 8, 12, 20, 40, 80, 150, 300], [8, 8, 10, 12, 16, 20, 18, 5, 2])[0]
     fam = family or rng.choices(['vg', 'cov', 'covnc', 'mado', 'order4', 'poisson', 'covg', 'bysample', 'bysample2dir', 'dates'],
                                 [34, 18, 10, 10, 5, 5, 5, 5, 2, 8])[0]
     calc = {'vg': 0, 'cov': 1, 'covnc': 9, 'mado': 3, 'order4': 10, 'poisson': 5, 'covg': 2, 'bysample': rng.choice([0, 1, 3]),
@@ -57,7 +57,7 @@ def gen_case(rng, quick, psmin_of, family=None):
     if fam in ('covg', 'bysample', 'bysample2dir'): n = min(n, 40)      # rational sums with unrelated denominators: keep the model fast
     style = rng.choice(['lattice', 'lattice', 'dup', 'columns', 'jitter', 'line'])
     pts = gen_points(rng, ndim, n, style)
-    nvar = rng.choice([1, 1, 2, 2, 3])
+    nvar = rng.choice([1, 1, 2, 2, 3]) if n <= 150 else rng.choice([1, 1, 2])
     if fam == 'poisson': nvar = 1      # the cross Poisson term subtracts the mean of ONE of the two variables: no pairwise definition to compare with
     hasSel = rng.random() < .4; hasW = rng.random() < .4
     hasDate = fam == 'dates'
@@ -182,11 +182,35 @@ def classify(c, idir, m=None, model_agrees=True):
     return generic_key(c, idir)
 
 # ------------------------------------------------------------------------------------------- evaluation of a batch
+def run_model_files(ctx, runner, casefile, timeout=3000):
+    """extracted model on a case file, split round-robin over the cores; every worker writes to its own file
+       (results of large cases are long lines: no pipes)"""
+    lines = [l for l in open(casefile) if l.strip() and not l.startswith('#')]
+    jobs = min(NPROC, max(1, len(lines) // 2))
+    procs = []
+    for j in range(jobs):
+        part = casefile + '.mpart%d' % j
+        with open(part, 'w') as f: f.writelines(lines[j::jobs])
+        fo = open(part + '.out', 'w')
+        procs.append((j, part, fo, subprocess.Popen(['bash', '-c', 'ulimit -s unlimited; exec "%s" "%s"' % (runner, part)],
+                                                    stdout=fo, stderr=subprocess.DEVNULL)))
+    t0 = time.time()
+    res = [None] * len(lines)
+    for j, part, fo, p in procs:
+        try: p.wait(timeout=max(1, timeout - (time.time() - t0)))
+        except subprocess.TimeoutExpired: p.kill()
+        fo.close()
+        out = [sx_parse(l) for l in open(part + '.out') if l.strip()]
+        for k, idx in enumerate(range(j, len(lines), jobs)):
+            if k < len(out): res[idx] = out[k]
+        os.remove(part); os.remove(part + '.out')
+    return [r for r in res if r is not None] if any(r is None for r in res) else res
+
 class Engine:
     def __init__(self, ctx, exe, runner): self.ctx, self.exe, self.runner = ctx, exe, runner
     def run(self, name, cases):
         cf = write_cases(self.ctx, name, cases)
-        rc_m, model = run_model(self.ctx, self.runner, cf)
+        model = run_model_files(self.ctx, self.runner, cf)
         if len(model) != len(cases) or any(m and m[0] == -999 for m in model if isinstance(m, list) and m and isinstance(m[0], int)):
             print('ERROR: model runner rejected a case or returned %d results for %d cases' % (len(model), len(cases))); sys.exit(3)
         if any(m and isinstance(m[0], int) and m[0] == -998 for m in model):
@@ -375,7 +399,7 @@ def run(ctx):
         if abs(float(psmin_of[t]) - abs(math.cos(math.radians(t)))) > 1e-12:
             ctx.violation('getCosineAngularTolerance:value', 'psmin(%g) = %r' % (t, float(psmin_of[t])), {'tolang': t});
 
-    ncase = 260 if quick else 2600
+    ncase = 260 if quick else 1400
     cases, meta = [], []
     corpus = load_corpus(ctx)
     for c in corpus: cases.append(c); meta.append({'fam': 'corpus'})
@@ -397,7 +421,7 @@ def run(ctx):
             cc, sig = variant_varperm(rng, c)
             cases.append(cc); meta.append({'fam': fam, 'meta': 'variables', 'base': i, 'sig': sig}); ctx.dist('metamorphic_variables')
     # grids: the data as a point set (general algorithm, modelled) ...
-    ngrid = 40 if quick else 400
+    ngrid = 40 if quick else 300
     grids = []
     for i in range(ngrid):
         k1, ss, codir, dp2 = gen_grid(rng, quick)
